@@ -43,7 +43,7 @@ static void case_permute(uint64_t idx)
 {
     ascon_state_t *st = (ascon_state_t *)galloc(sizeof(*st), (int)(idx & 1));
     uint8_t s0[40], exp[40], got[40];
-    unsigned fr = (unsigned)(idx % 12);
+    unsigned fr = (unsigned)((idx >> 2) % 12);   /* idx % 4 selects the case kind: do not alias with it */
     fill_pattern(R, s0, 40, pick_pattern(R));
     ascon_init(st); ascon_overwrite_bytes(st, s0, 0, 40);
     call("ascon_permute", (void *)ascon_permute, UL(st), fr, 0, 0, 1);
